@@ -32,6 +32,7 @@ func init() {
 	registerRule("R43", ruleR43)
 	registerRule("R44", ruleR44)
 	registerRule("R45", ruleR45)
+	registerRule("R46", ruleR46)
 	registerRule("R42", ruleR42)
 	registerRule("R36", ruleR36)
 	registerRule("R41", ruleR41)
@@ -152,6 +153,7 @@ func init() {
 	impliedProps["R06"] = append(impliedProps["R06"], "C18") // a layout read through the wrong type is also an unsafe.Pointer misuse
 	impliedProps["R20"] = append(impliedProps["R20"], "C02", "C01", "C11")
 	impliedProps["R45"] = append(impliedProps["R45"], "C01", "C08", "C09")
+	impliedProps["R46"] = append(impliedProps["R46"], "C01", "C03", "C04", "C08", "C09", "C11")
 	impliedProps["R17"] = append(impliedProps["R17"], "C14", "C08")
 	impliedProps["R26"] = append(impliedProps["R26"], "C14", "C17")
 	impliedProps["R29"] = append(impliedProps["R29"], "C08")
